@@ -10,7 +10,10 @@ from math import gcd
 
 ID = "C12"
 LEVEL = "proof"
-HARNESSES = [{"name": "main", "src": "harness.cpp", "flags": ["-O0", "-DTETL_ENABLE_CONTRACT_CHECKS=1"]}]
+# --nofork: the code under test is pure integer arithmetic on in-domain inputs (no crash isolation needed;
+# a crash fails the run), and one write per case would dominate the run time
+HARNESSES = [{"name": "main", "src": "harness.cpp", "flags": ["-O0", "-DTETL_ENABLE_CONTRACT_CHECKS=1"],
+              "args": ["--nofork"]}]
 
 RULE = ("for every ordered pair of the 10 periods {nano, micro, milli, 1, 60, 3600, 86400, 1/3, 5/7, 1001/30000} "
         "(int64 reps): every count in [-2000, 2000] through duration_cast/floor/ceil/round, plus exact ties, exact "
@@ -210,7 +213,11 @@ def gen(tier, rng):
                 out.append(h("limits"))
                 # ---- conversions with one count
                 if core and rc == 0:
-                    cs = sweep
+                    # quick: every count where the window [-2000, 2000] reaches a rounding boundary
+                    # (inexact factor, and at least half a target tick inside the window); a stride of 5
+                    # where every conversion is exact (cd == 1) or every result is in {-1, 0, 1}
+                    informative = P.cd > 1 and P.cd <= 4000 * P.cn
+                    cs = sweep if (informative or not quick) else range(-2000, 2001, 5)
                 elif core:
                     cs = range(-2000, 2001, 41 if quick else 3)
                 else:
